@@ -37,7 +37,7 @@ STAGE = st.fixed_dictionaries({
 })
 CASE = st.fixed_dictionaries({
     "setUp": STAGE, "test": STAGE, "tearDown": STAGE, "cleanups": st.lists(STAGE, max_size=3),
-    "timeout": st.sampled_from([1, 2, 3, 4, 6, 20]), "interrupt": st.one_of(st.none(), st.none(), st.none(), st.sampled_from([0, 1, 2, 3, 5])),
+    "timeout": st.sampled_from([20, 20, 20, 6, 4, 3, 2, 1, 12]), "interrupt": st.one_of(st.none(), st.none(), st.none(), st.none(), st.sampled_from([0, 1, 2, 3, 5, 9])),
     "variant": st.sampled_from(["plain", "broken"]), "suppress": st.booleans(), "store": st.booleans(),
     "ties": st.lists(st.integers(0, 3), max_size=5),
 })
